@@ -398,6 +398,8 @@ class World(object):
         self.obj = {}
         self.hook_viol = []
         self.in_shallow = False
+        import collections
+        self.st_counters = collections.Counter()
         doc = None
         for i, (kind, x) in enumerate(pool):
             if kind == 'doc':
@@ -451,6 +453,8 @@ def run(case, st):
                 changed += 1
             st.feature('op', op[0])
     finally:
+        for k_, v_ in w.st_counters.items():
+            st.counters[k_] += v_
         _hookstate['world'] = None
     st.feature('receiver-kind/op', '%s/%s' % (w.m.kind[case['ops'][-1][1]], case['ops'][-1][0]))
     return {'nontrivial': changed >= 2}
@@ -757,6 +761,16 @@ def check_world(w):
                 want = P_FOLL
             if got != want:
                 return ('compareDocumentPosition', 'a=%d b=%d: got %#x, model %#x (order %r)' % (a, b, got, want, order))
+    # a node no container lists has no siblings (whatever its parent link still says after a removal)
+    for i in m.kind:
+        if m.par[i] is None and m.kind[i] in ('elem', 'text') and i in O and i not in m.held:
+            try:
+                ps, ns = O[i].previousSibling, O[i].nextSibling
+            except Exception as e:
+                return ('sibling', 'unlisted node %d: sibling navigation raises %r' % (i, e))
+            w.st_counters['unlisted_nodes_sibling_checked'] += 1
+            if ps is not None or ns is not None:
+                return ('sibling', 'node %d is listed by no container, its siblings are %r/%r' % (i, ps, ns))
     for i in m.kind:
         if i not in m.ever and m.par[i] is None and m.kind[i] != 'doc' and i not in m.held and order[1:]:
             got = O[order[1]].compareDocumentPosition(O[i])
